@@ -109,6 +109,25 @@ Fixpoint build_env (en : env) (es : list senum) (ss : list sstruct) : env :=
 Definition resolve (sc : schema) (name : string) : option rty :=
   lookup name (build_env [] (enums sc) (structs sc)).
 
+(* the same, with the fields of every struct left in DECLARATION order: what a
+   consumer sees that walks struct.fields (the reflection record, the run-time
+   loaded C++ schema) *)
+Definition resolve_struct_decl (en : env) (es : list senum) (s : sstruct) : option rty :=
+  option_map RStruct (resolve_fields en es (sfields s)).
+
+Fixpoint build_env_decl (en : env) (es : list senum) (ss : list sstruct) : env :=
+  match ss with
+  | [] => en
+  | s :: ss' =>
+      match resolve_struct_decl en es s with
+      | Some r => build_env_decl (en ++ [(sname s, r)]) es ss'
+      | None => build_env_decl en es ss'
+      end
+  end.
+
+Definition resolve_decl (sc : schema) (name : string) : option rty :=
+  lookup name (build_env_decl [] (enums sc) (structs sc)).
+
 (* ---------- typing of values ---------- *)
 Definition in_unsigned (n : nat) (z : Z) : bool := (0 <=? z) && (z <? 2 ^ Z.of_nat n).
 Definition in_signed (n : nat) (z : Z) : bool :=
